@@ -2,10 +2,14 @@ package harness
 
 import (
 	"bytes"
+	"context"
 	"fmt"
 	"runtime"
+	"sync"
 	"testing"
 	"time"
+
+	"github.com/lightninglabs/lightning-node-connect/gbn"
 )
 
 // C14, deadline half: Send / Recv deadlines expiring inside a chunked message,
@@ -140,7 +144,108 @@ func TestGenC14Timeouts(t *testing.T) {
 			}
 		}
 	}
+	// Send may be called from several goroutines (C18): with chunking every successful Send still produces exactly
+	// one Recv result with identical bytes. Two senders per side, two receivers on the other, a pair of endpoints
+	// joined by plain channels (no event log: the monitor's model has one Send at a time).
+	for _, chunk := range []int{16, 0} {
+		ok, detail := concurrentSendScenario(chunk)
+		q.check(ok, "c14:concurrent-sends-interleave-their-chunks", func() string { return detail })
+		q.stat("concurrent_send_scenarios", 1)
+		q.stat("distinct_nontrivial", 1)
+	}
 	q.sample(fmt.Sprintf("chunk sizes 1,2,3,5 x 2..4 chunks x deadline after each chunk boundary x {Recv, Send} deadline; last: %v", firstN(l.keep, 16)))
+}
+
+func concurrentSendScenario(chunk int) (bool, string) {
+	ctx, cancel := context.WithCancel(context.Background())
+	defer cancel()
+	ab, ba := make(chan []byte, 65536), make(chan []byte, 65536)
+	mk := func(out, in chan []byte) (func(context.Context, []byte) error, func(context.Context) ([]byte, error)) {
+		return func(ctx context.Context, b []byte) error {
+				select {
+				case out <- append([]byte{}, b...):
+					return nil
+				case <-ctx.Done():
+					return ctx.Err()
+				}
+			}, func(ctx context.Context) ([]byte, error) {
+				select {
+				case b := <-in:
+					return b, nil
+				case <-ctx.Done():
+					return nil, ctx.Err()
+				}
+			}
+	}
+	var opts []gbn.Option
+	if chunk > 0 {
+		opts = append(opts, gbn.WithMaxSendSize(chunk))
+	}
+	var srv, cli *gbn.GoBackNConn
+	var e1, e2 error
+	var wg sync.WaitGroup
+	wg.Add(2)
+	go func() { defer wg.Done(); s, r := mk(ba, ab); srv, e1 = gbn.NewServerConn(ctx, s, r, opts...) }()
+	go func() { defer wg.Done(); s, r := mk(ab, ba); cli, e2 = gbn.NewClientConn(ctx, 20, s, r, opts...) }()
+	wg.Wait()
+	if e1 != nil || e2 != nil {
+		return false, fmt.Sprintf("handshake: %v / %v", e1, e2)
+	}
+	defer func() { _ = cli.Close(); _ = srv.Close() }()
+	const perSender, size = 20, 800
+	var snd sync.WaitGroup
+	for k := 0; k < 2; k++ {
+		snd.Add(1)
+		go func(k int) {
+			defer snd.Done()
+			for i := 0; i < perSender; i++ {
+				if err := cli.Send(bytes.Repeat([]byte{byte('A' + k)}, size)); err != nil {
+					return
+				}
+			}
+		}(k)
+	}
+	bad, got := "", 0
+	var mu sync.Mutex
+	var rcv sync.WaitGroup
+	srv.SetRecvTimeout(3 * time.Second)
+	for k := 0; k < 2; k++ {
+		rcv.Add(1)
+		go func() {
+			defer rcv.Done()
+			for {
+				mu.Lock()
+				done := got >= 2*perSender
+				mu.Unlock()
+				if done {
+					return
+				}
+				m, err := srv.Recv()
+				if err != nil {
+					return
+				}
+				mu.Lock()
+				got++
+				uniform := len(m) == size
+				for _, b := range m {
+					if b != m[0] {
+						uniform = false
+					}
+				}
+				if !uniform && bad == "" {
+					na := bytes.Count(m, []byte("A"))
+					bad = fmt.Sprintf("a Recv result of %d bytes with %d x 'A' and %d x 'B'", len(m), na, len(m)-na)
+				}
+				mu.Unlock()
+			}
+		}()
+	}
+	snd.Wait()
+	rcv.Wait()
+	if bad != "" || got != 2*perSender {
+		return false, fmt.Sprintf("chunk size %d, two goroutines each Send %d messages of %d x 'A' resp. 'B', two goroutines Recv: %d results; %s", chunk, perSender, size, got, bad)
+	}
+	return true, ""
 }
 
 func first(ms [][]byte) []byte {
